@@ -837,6 +837,10 @@ class AbstractExcelInPython(ABC):
         return work_days_count * multiple
 
     def _index(self, matrix_list: tuple | list, row_number: int, column_number: int | None, area_number: int):
+        # a position that was computed (6/2) arrives as a float: Excel cuts the fraction off
+        row_number, column_number, area_number = (int(number) if isinstance(number, float) else number
+                                                  for number in (row_number, column_number, area_number))
+
         if area_number > len(matrix_list):
             return '#REF!'
 
